@@ -95,6 +95,30 @@ def build(cls, mask, img, uncond, ctx, seed, libnet=False, bounded=False):
 
     ishape = [H, W] if img else None
     mask = mask_object(mask, seed)
+    try:
+        return _construct(cls, mask, create, ishape, img, uncond, bounded)
+    finally:
+        # the mask is the caller's object: what the caller does to it afterwards (SimpleRealNVP flips it
+        # in place for the next layer) must not reach into the layer that was built from it
+        import numpy as np
+
+        if isinstance(mask, torch.Tensor):
+            if mask.dtype == torch.bool:
+                mask.logical_not_()
+            elif mask.dtype == torch.uint8:
+                mask.fill_(1)
+            else:
+                mask.mul_(-1)
+        elif isinstance(mask, np.ndarray):
+            mask *= -1
+        elif isinstance(mask, list):
+            mask[:] = [-v for v in mask]
+
+
+def _construct(cls, mask, create, ishape, img, uncond, bounded):
+    import torch
+    from nflows import transforms as TR
+
     if cls in ("Affine", "Additive"):
         C = TR.AffineCouplingTransform if cls == "Affine" else TR.AdditiveCouplingTransform
         ut = (lambda features: TR.PointwiseAffineTransform(shift=0.25, scale=1.5)) if uncond else None
@@ -210,6 +234,25 @@ def check_state(st, cls, ctx, seed, libnet=False):
     tol = 2e-2
     if not torch.allclose(b, xr, atol=tol, rtol=tol) or not torch.allclose(lad1 + lad2, torch.zeros_like(lad1), atol=5 * tol):
         fails.append(dict(case, clause="roundtrip", detail="inverse(forward(x)) differs from x by %.3g, logabsdet sum %.3g" % (float((b - xr).abs().max()), float((lad1 + lad2).abs().max()))))
+    # (1c) every row is transformed under its OWN context and identity features: rows that share the
+    # identity block but not the context, and rows that share the context but not the identity block
+    if c is not None and cls != "UMNN":
+        for share in ("identity", "context"):
+            xs = xr.clone()
+            cs = c.clone()
+            if share == "identity":
+                xs[:, ident] = xs[0:1, ident]
+            else:
+                cs[:] = cs[0:1]
+            with torch.no_grad():
+                yb, lb = f(xs.clone(), cs)
+                rows = [f(xs[r : r + 1].clone(), cs[r : r + 1]) for r in range(xs.shape[0])]
+            n += 1
+            yr = torch.cat([r_[0] for r_ in rows], 0)
+            lr = torch.cat([r_[1] for r_ in rows], 0)
+            if not torch.allclose(yb, yr, atol=1e-5, rtol=1e-5) or not torch.allclose(lb, lr, atol=1e-4, rtol=1e-5):
+                fails.append(dict(case, clause="row_context", detail="rows sharing their %s: the batched call differs from the rows evaluated one by one by %.3g (a transformed feature must depend on its own row's identity features and context only)" % (share, float((yb - yr).abs().max()))))
+                break
     # (2) dependency pattern on one generic interior row
     x1 = torch.rand((1,) + shape[1:], generator=g) * 0.8 + 0.1 if bounded else (torch.rand((1,) + shape[1:], generator=g) * 1.2 - 0.6)
     c1 = c[:1] if c is not None else None
